@@ -99,6 +99,8 @@ FIXED_TABLES = [
     [{"subnets": ["127.0.0.7/32"], "access": []}, {"subnets": ["127.0.0.0/8"], "access": ["http", "http-metrics", "http-leases", "dns-recursion"]}],
     [{"subnets": ["127.0.0.1/8"], "access": ["http-metrics", "dns-recursion"]}, {"subnets": ["::1/64"], "access": ["http-leases"]}],
     [{"unix": True, "access": ["http"]}, {"unix": False, "subnets": ["::1/128", "fd00::/16"], "access": ["http-leases", "dns-recursion"]}],
+    [{"subnets": ["127.0.0.1/32"], "access": ["http"]}, {"subnets": ["127.0.0.7/32"], "access": ["http-leases"]}, {"subnets": ["::1/128"], "access": ["http-metrics"]},
+     {"unix": True, "access": ["http-metrics", "http-leases"]}],
     [{"subnets": ["127.0.0.9/32"], "access": ["http", "http-metrics"]}, {"subnets": ["10.77.0.128/25"], "access": ["http-leases", "dhcp-client"]},
      {"access": ["http-metrics"]}],
 ]
@@ -192,6 +194,29 @@ def main():
                             kind = "granted-although-refused" if not want else "refused-although-granted"
                             leg.violation("C08/http-%s/%s" % (kind, perm), "table %s: %s GET %s -> %d, first-match model says %s" % (
                                 table, cname, path, st, "grant" if want else "refuse"), replay)
+                # ---- HTTP keep-alive: several requests with different verdicts on ONE connection, in several orders
+                orders = [["/", "/metrics", "/api/v1/leases.json", "/"], ["/api/v1/leases.json", "/", "/metrics", "/api/v1/leases.json"],
+                          ["/metrics", "/api/v1/leases.json", "/", "/metrics"]]
+                permof = dict(ENDPOINTS)
+                for (cname, cmodel, fam, src, target, ns) in clients[:7]:
+                    for order in orders:
+                        if cmodel[0] == "unix":
+                            sts = dhcplib.http_keepalive(None, order, unix="/var/lib/erbium/control", timeout=4.0)
+                        else:
+                            sts = dhcplib.http_keepalive(target, order, family=fam, src=src, netns=sb.cns if ns else None, timeout=4.0)
+                        for path, st in zip(order, sts):
+                            want = first_match(rules, cmodel, permof[path])
+                            leg.eval()
+                            if want is None or st is None:
+                                leg.count("keepalive_unjudged", 1)
+                                continue
+                            ok = (st == 200) if want else (st == 403)
+                            leg.cls("keepalive|table%d|%s|%s|%s" % (min(ti, 6), cname.split("-")[0], permof[path], "ok" if ok else "bad"))
+                            if not ok:
+                                kind = "granted-although-refused" if not want else "refused-although-granted"
+                                leg.violation("C08/http-keepalive-%s/%s" % (kind, permof[path]),
+                                              "table %s: %s, one connection, requests %s -> %s; %s should be %s" % (table, cname, order, sts, path, "granted" if want else "refused"),
+                                              {"engine": "c08-e2e", "table": table, "client": cname, "order": order, "statuses": sts, "config": conf})
                 # ---- DNS: prime the cache from whichever client is permitted, then ask from everybody
                 dns_clients = [
                     ("v4-loopback-1", ("ip", ipaddress.ip_address("127.0.0.1")), socket.AF_INET, ("127.0.0.1", 0), ("127.0.0.53", 53)),
